@@ -880,3 +880,11 @@ package mqtt
 //@ at[C12] send ch#1: assert Is(v, ErrClosed)
 //@ ensures[C12] closed(c.exactlyOnce.seqSem) && len(c.exactlyOnce.seqSem) == 0
 //@ ensures[C12] old(len(c.exactlyOnce.seqSem)) == 1 ==> closed(c.exactlyOnce.queue) && len(c.exactlyOnce.queue) == 0
+
+// termCallbacks forks the two closures above (go statements and the WaitGroup are outside the verified subset:
+// the contract is used, not discharged); ReadSlices runs it exactly when the read routine reports ErrClosed.
+//@ func mqtt.(*Client).termCallbacks
+//@ unverified
+//@ func mqtt.(*Client).ReadSlices -> message, topic, err
+//@ requires rdinv(c) && rdmaps(c) && (c.readConn == nil) == (c.bufr == nil)
+//@ at[C12] call termCallbacks#1: assert Is(err, ErrClosed)
